@@ -614,6 +614,22 @@ impl Hasher for ModHasher {
     }
 }
 
+/// bytes currently held from `CountAlloc` (process-wide: blocks may be returned on another thread)
+static COUNTED: std::sync::atomic::AtomicI64 = std::sync::atomic::AtomicI64::new(0);
+#[derive(Clone, Copy, Default)]
+pub struct CountAlloc;
+unsafe impl allocator_api2::alloc::Allocator for CountAlloc {
+    fn allocate(&self, layout: std::alloc::Layout) -> Result<std::ptr::NonNull<[u8]>, allocator_api2::alloc::AllocError> {
+        let p = allocator_api2::alloc::Global.allocate(layout)?;
+        COUNTED.fetch_add(layout.size() as i64, Ordering::SeqCst);
+        Ok(p)
+    }
+    unsafe fn deallocate(&self, ptr: std::ptr::NonNull<u8>, layout: std::alloc::Layout) {
+        COUNTED.fetch_sub(layout.size() as i64, Ordering::SeqCst);
+        allocator_api2::alloc::Global.deallocate(ptr, layout)
+    }
+}
+
 type GMap = HashMap<GEl, GEl, ModBuild>;
 type GSet = HashSet<GEl, ModBuild>;
 
@@ -770,6 +786,53 @@ fn pool_checks(threads: usize, ids: &[u16], other: &[u16], hb: u8) -> Result<u64
             return Err(format!("{}: delivered {:?}, len afterwards {}, capacity {} -> {}", ctx("par_drain"), got, m.len(), cap, m.capacity()));
         }
         m.insert(GEl::new(7), GEl::new(8));
+        // owning parallel iterators give their memory block back whatever the consumer does: complete, short-circuit, panic
+        // (a process-wide byte counter: the block may be returned on a pool thread)
+        if ids.len() >= 2 {
+            let victim = ids[ids.len() / 2];
+            for mode in 0..3u8 {
+                let before = COUNTED.load(Ordering::SeqCst);
+                {
+                    let mut cm: HashMap<GEl, GEl, ModBuild, CountAlloc> = HashMap::with_hasher_in(ModBuild(hb), CountAlloc);
+                    let mut cs: HashSet<GEl, ModBuild, CountAlloc> = HashSet::with_hasher_in(ModBuild(hb), CountAlloc);
+                    let mut ct: HashTable<GEl, CountAlloc> = HashTable::new_in(CountAlloc);
+                    let hh = |e: &GEl| ModBuild(hb).hash_one(e);
+                    for &i in ids {
+                        cm.insert(GEl::new(i), GEl::new(i + 1000));
+                        cs.insert(GEl::new(i));
+                        let e = GEl::new(i);
+                        let h = hh(&e);
+                        ct.insert_unique(h, e, hh);
+                    }
+                    let r = std::panic::catch_unwind(std::panic::AssertUnwindSafe(|| match mode {
+                        0 => {
+                            cm.into_par_iter().for_each(|_| {});
+                            cs.into_par_iter().for_each(|_| {});
+                            ct.into_par_iter().for_each(|_| {});
+                        }
+                        1 => {
+                            let _ = cm.into_par_iter().find_any(|(k, _)| k.id == victim);
+                            let _ = cs.into_par_iter().find_any(|k| k.id == victim);
+                            let _ = ct.into_par_iter().find_any(|k| k.id == victim);
+                        }
+                        _ => {
+                            let r1 = std::panic::catch_unwind(std::panic::AssertUnwindSafe(|| cm.into_par_iter().for_each(|(k, _)| assert!(k.id != victim, "consumer panic"))));
+                            let r2 = std::panic::catch_unwind(std::panic::AssertUnwindSafe(|| cs.into_par_iter().for_each(|k| assert!(k.id != victim, "consumer panic"))));
+                            let r3 = std::panic::catch_unwind(std::panic::AssertUnwindSafe(|| ct.into_par_iter().for_each(|k| assert!(k.id != victim, "consumer panic"))));
+                            assert!(r1.is_err() && r2.is_err() && r3.is_err(), "a consumer's panic was swallowed");
+                        }
+                    }));
+                    if let Err(p) = r {
+                        let m = p.downcast_ref::<String>().cloned().or_else(|| p.downcast_ref::<&str>().map(|s| s.to_string())).unwrap_or_default();
+                        return Err(format!("{}: {m}", ctx("into_par_iter")));
+                    }
+                }
+                let after = COUNTED.load(Ordering::SeqCst);
+                if after != before {
+                    return Err(format!("{}: {} bytes of table memory were not returned to the allocator (consumer mode {mode}: 0 complete, 1 short-circuit, 2 panic)", ctx("into_par_iter"), after - before));
+                }
+            }
+        }
         // short-circuiting consumer over par_drain: undelivered elements dropped exactly once
         let mut d = gmap(ids, hb);
         let _ = d.par_drain().find_any(|(k, _)| k.id == ids.get(ids.len() / 2).copied().unwrap_or(0));
